@@ -2,7 +2,7 @@
 from .. import machine as M
 
 DRIVERS = ["drv_machine"]
-GENERATED = ["Handlers", "Markers", "MiscHandler", "SubmoduleLog"]
+GENERATED = ["Handlers", "Markers", "MiscHandler", "SubmoduleLog", "CommitMeta"]
 
 
 def lbl(s):
